@@ -16,6 +16,7 @@ from __future__ import annotations
 
 import bisect
 import functools
+import random
 import datetime
 import json
 from typing import Any
@@ -28,7 +29,7 @@ ID = "C13"
 LEVEL = "proof"
 ENGINES = ["lean-model", "purediff", "kopfsim"]
 # LEVEL is the schema enum; STRENGTH says how much of the property the theorems carry: "partial" because the ensemble
-# clauses are proved under a named guard only (and two of them are FALSE of the code: F4/F5, F7) and the pause effects rest on
+# clauses are proved under a named guard only (and three of them are FALSE of the code: F4/F5, F7, F9) and the pause effects rest on
 # the simulation oracle alone.
 STRENGTH = "partial"
 TIE = ("S: every call of the real process_peering_event (direct calls on generated status contents + all calls inside "
@@ -36,38 +37,47 @@ TIE = ("S: every call of the real process_peering_event (direct calls on generat
        "S on the transition system: every write to the peering object in the simulations replayed through `Status.patch` "
        "(C13.write) and every call that cleans replayed as a `deliverStale` step on (view, status at landing) (C13.stale, which "
        "also says whether the view was benign = inside the guard of the *_partial theorems: counter lts.stale_view); the Lean "
-       "witnesses of the open findings F4, F5, F7 are run through the driver (C13.run) and their claim compared with the replay "
+       "witnesses of the open findings F4, F5, F7, F9 are run through the driver (C13.run) and their claim compared with the replay "
        "of the same scenario on the real code. NOT tied (no trace-to-label-list correspondence of whole histories): the "
-       "labels deliver (it is deliverStale with a benign view: benign_stale_eq_deliver), wake/sleeping, exit, exitBegin/exitEnd, "
+       "labels deliver (it is deliverStale with a benign view: benign_stale_eq_deliver), wake/wakeIssue/land/sleeping, exit, exitBegin/exitEnd, "
        "exitLost, kill, and the ghost nextKA/Allowed; for these the simulation oracle is the only link to the code")
 LEVEL_TEXT = ("Lean theorems, STRENGTH partial. FULL (no guard): per call, all status contents: paused_iff, turned_iff, dead_cleaned, "
-              "wake_at_deadline; arithmetic keepalive_period, renewal, renewal_lifetime_one; for ALL label lists (old views, lost "
-              "exits, kills, both exit orders): withdraw_on_exit, withdrawn_stays(_from); exit_two_phase (the code's stop = record "
+              "wake_at_deadline; arithmetic keepalive_period, renewal, renewal_lifetime_one; withdraw_on_exit (both exit orders); "
+              "PARTIAL, guard 'no self-touch of the exiting operator is in flight when it withdraws', for ALL label lists (old views, "
+              "lost exits, kills, both exit orders, late landings): withdrawn_stays_partial, withdrawn_stays_from_partial - without "
+              "the guard FALSE of the code: selftouch_in_flight_witness (F9, replayed); FULL: exit_two_phase (the code's stop = record "
               "withdrawn FIRST (exitBegin) ... handling ended LAST (exitEnd) composes to the proper stop `exit` when nothing happens in "
-              "between). PARTIAL, guard 'the last view every running operator processed was the current status or a BENIGN older one "
-              "(same verdict, same cleaning: benign_stale_eq_deliver) and nobody is between exitBegin and exitEnd' (= Stable / batches "
-              "of deliver): exactly_top_partial, at_most_one_active_partial, equal_priority_both_paused_partial, settle_partial, "
-              "failover_exit_partial, failover_after_loss_partial (kill or lost exit of anybody, then ANY interleaving of time, "
-              "keep-alives, self-touches and deliveries of the survivors, the lost one's records expired, survivors' records fresh => "
-              "after a covering delivery exactly the top survivor is active). OUTSIDE the guard the clause is FALSE of the code, with "
-              "Lean witnesses replayed on the real code: stale_view_two_active_witness (F4), restart_stale_view_two_active_witness "
-              "(F5), exit_overlap_two_active_witness (F7). PARTIAL, guard Timely (every touch() <= B ticks, 2B < min(5, L-1) s resp. "
-              "1/2 s for L = 1, no old views that are not benign, nobody writes under an operator's identity, proper exit order): "
-              "own_record_fresh. POSSIBILITY only (a schedule exists; `wake` has no time guard in the model): resume_after_expiry "
-              "(expiry -> the sleeping call can wake -> touch -> delivery -> active), convergence_possible (from ANY state with nobody "
-              "exiting; its schedule first lets EVERY record expire, then everybody re-touches and reads the current status - not a "
-              "timely run). NO theorem, simulation oracle only: the pause effects (watch streams closed, daemons stopped, no "
-              "handling beyond queued events, nothing handled twice - also across operators: clause H), inevitability of resume / "
-              "convergence, API failures inside a call. The model is hand-written; see TIE for what is and is not compared with the code.")
+              "between); benign_stale_eq_deliver / benign_run_eq_current (an older view that yields the same verdict and the same "
+              "cleaning IS the current status, step by step and for whole runs: the guard below is not 'zero latency' - in the timely "
+              "regime 99-100 % of the cleaning calls of the real code saw the current status or a benign older view (counter "
+              "lts.stale_view; the rest saw a verdict that was about to change), in the late regime - F4 - about half). PARTIAL, guard 'the last "
+              "view every running operator processed was the current status or a BENIGN older one and nobody is between exitBegin and "
+              "exitEnd' (= Stable, resp. Quiet interleavings + batches of deliver): exactly_top_partial, "
+              "at_most_one_active_partial, equal_priority_both_paused_partial; settle_partial, failover_exit_partial, "
+              "failover_after_loss_partial (from a state where the operators see each other / after the proper exit of anybody / "
+              "after a kill or lost exit of anybody: ANY interleaving of time, keep-alives, waking self-touches and deliveries of "
+              "the others, [the lost one's records expired,] own records fresh (second guard `hown`: what own_record_fresh gives for "
+              "timely runs) => after a covering delivery exactly the top one is active). OUTSIDE the guard the clause is FALSE of "
+              "the code, with Lean witnesses replayed on the real code: stale_view_two_active_witness (F4), "
+              "restart_stale_view_two_active_witness (F5), exit_overlap_two_active_witness (F7). failover_after_loss_timely_partial: "
+              "the two guards compose (Timely discharges `hown`). PARTIAL, guard Timely (every touch() "
+              "<= B ticks, 2B < min(5, L-1) s resp. 1/2 s for L = 1, no old views that are not benign, nobody writes under an "
+              "operator's identity, proper exit order): own_record_fresh. POSSIBILITY only (a schedule exists; `wake` has no time "
+              "guard in the model): resume_after_expiry (expiry -> the sleeping call can wake -> touch -> delivery -> active), "
+              "convergence_possible (from ANY state with nobody exiting; its schedule first lets EVERY record expire, then everybody "
+              "re-touches and reads the current status - not a timely run). NO theorem, simulation oracle only: the pause effects "
+              "(watch streams closed, daemons stopped, no handling beyond queued events, nothing handled twice - also across "
+              "operators: clause H; FALSE of the code in one history shape: F8), inevitability of resume / convergence, API failures "
+              "inside a call. The model is hand-written; see TIE for what is and is not compared with the code.")
 THEOREMS = [("Kopf.Props.C13", "Kopf.C13." + n) for n in [
     "paused_iff", "turned_iff", "dead_cleaned", "wake_at_deadline",
     "exactly_top_partial", "at_most_one_active_partial", "equal_priority_both_paused_partial",
-    "stale_view_two_active_witness", "restart_stale_view_two_active_witness", "benign_stale_eq_deliver",
+    "stale_view_two_active_witness", "restart_stale_view_two_active_witness", "benign_stale_eq_deliver", "benign_run_eq_current",
     "exit_two_phase", "exit_overlap_two_active_witness",
-    "settle_partial", "failover_exit_partial", "failover_after_loss_partial",
+    "settle_partial", "failover_exit_partial", "failover_after_loss_partial", "failover_after_loss_timely_partial",
     "resume_after_expiry", "convergence_possible",
     "keepalive_period", "renewal", "renewal_lifetime_one", "own_record_fresh",
-    "withdraw_on_exit", "withdrawn_stays_from", "withdrawn_stays"]]
+    "withdraw_on_exit", "withdrawn_stays_from_partial", "withdrawn_stays_partial", "selftouch_in_flight_witness"]]
 RULE = ("(1) direct calls: status of 0-5 records over a small identity pool (own record in/out), priority around the own one / "
         "missing / garbled, lifetime ints incl. 0,1,negative / numeric strings / garbage / missing, lastseen placed exactly on the "
         "deadline and +-1 tick / far past / future / missing / null / unparsable / naive & Z formats, unknown keys, non-mapping "
@@ -78,16 +88,24 @@ RULE = ("(1) direct calls: status of 0-5 records over a small identity pool (own
         "lifetime), per-operator peering-event delivery delays (12%: later than some keep-alive margin = the late regime, judged "
         "only by the checks that do not presume timely delivery), 25% restarts under the same identity, 30%: handlers that take "
         "0.5-3 s (so that a handler overlaps a pause, a stop or a failover; in those the top operator is also stopped shortly after "
-        "an edit), 10%: API responses delayed after the write is applied, stops during the first keep-alive. A case is one "
+        "an edit), 10%: API responses delayed after the write is applied, stops during the first keep-alive, 15%: a waiting operator "
+        "is asked to stop at the very tick its sleep towards a blocker's deadline ends (self-touch and withdrawal in flight "
+        "together; own random stream derived from the history's seed). A case is one "
         "process_peering_event call (direct or simulated) "
         "or one keep-alive round or one write / stale-view step of the transition system; distinct & non-trivial = distinct abstracted (toggle-before, #dead, #prio, #same, own-record, "
         "error, sleep-kind, touch) tuples with a non-empty status.")
 TRUSTED = ["harness/sim (virtual-time loop, fake API server incl. merge-patch of `status`), harness/props/sim_c13.py "
            "(attribute-level observation of toggles / peering calls / handlers / watch requests)",
            "abstraction of a status: `lastseen` text -> ticks via iso8601 (kopf's own parser); everything else verbatim",
+           "the keep-alive jitter (random.randint(5, 10) as seen from peering.keepalive) is drawn per operator incarnation from a "
+           "stream derived from the history's seed, or pinned by the scenario (`jitters`), instead of the process-wide `random`",
            "the history oracle's settle window W = max delivery delay + 1 s (after a change of who is live, every operator must "
            "have reacted within W)"]
 ASSUMPTIONS = ["one virtual clock shared by all operators (no clock skew between operators)",
+               "running operators have pairwise distinct identities (kopf's default identity is unique per process; two processes started "
+               "with one POD_ID at the same time never pause for each other - peer.identity != identity - and are not expressible in the "
+               "model: `start` needs the identity not to be running); ONE cluster-wide peering object, mandatory peering (several "
+               "peering objects / namespaces, whose toggles are OR-ed in `operator_paused`, are not generated)",
                "floats in peering records are not generated (the Lean JSON has integers only); settings.peering.lifetime is an int "
                "(a float like 1.5 is out of contract: it sleeps as 1.5 but advertises int(1.5))",
                "a record without `lastseen` is read as 'just seen' (what the code does); the oracle treats it as live",
@@ -102,14 +120,17 @@ ASSUMPTIONS = ["one virtual clock shared by all operators (no clock skew between
                "outside the quantifier of the property ('any set of operators, any order of starts/exits/kills, any delivery timing'); there "
                "touch() gets a 404 that is only logged, no event arrives any more and a paused operator stays paused until the object is "
                "re-created (audit N2, reproduced; recorded as an observation, not a finding - sim_c13 can do it: delete_peering/create_peering)",
-               "the API server applies the PATCHes of one client in the order they were issued: a self-touch or keep-alive still in flight "
-               "when the withdrawal is issued and applied AFTER it would leave the record behind (audit N3: reproduced with injected "
-               "reordering only; the model lands `wake`/`keepalive` at once; proposals/fix-C13F7 removes the coincidence for the "
-               "self-touch because the watcher stops before the pinger withdraws)",
+               "a request that the client has CANCELLED is not applied by the server afterwards (the fake API drops it): the pinger's own "
+               "keep-alive PATCH cancelled in flight by the stop cannot land after the withdrawal (the two are sequential in one task), "
+               "and with proposals/fix-C13F7 neither can the cancelled self-touch of the peering observer; two requests that are both in "
+               "flight are applied in either order (finding F9: self-touch and withdrawal issued in the same tick; the model has "
+               "`wakeIssue`/`land` for it, the pinger's `keepalive` lands at once)",
                "`wake` has no time guard in the model (it may fire before the deadline, with any lag outside Timely): resume_after_expiry "
                "says the sleeping call CAN wake, not that it does at the deadline; the oracle (B) checks the latter on the real code",
-               "lifetimes whose deadline lies beyond year 9999 (about 2.5e11 s) make Peer() raise OverflowError in the code - every peer "
-               "raises, as for a garbled record; the model computes with unbounded integers; generators stay <= 604800 s",
+               "a lifetime outside timedelta's range or a deadline outside years 1..9999 makes Peer() raise OverflowError - every peer "
+               "raises, as for a garbled record (modelled: `tdOk`/`dtOk`, relative to the simulation epoch 2030-01-01; generated in the "
+               "direct calls incl. the last representable values; the oracle does not judge such records); a live blocker whose deadline "
+               "is ~2.5e11 s away gives a delay that is off the tick grid as a float: that case is counted as offgrid-skipped",
                "an API error inside clean()/touch() of process_peering_event makes the call raise and (since 9ef1bcb) the operator stop: "
                "`deliver` cannot fail in the model; likewise a garbled record (any theorem is silent on `= .error`): one malformed "
                "record written by anybody raises in every peer",
@@ -129,6 +150,8 @@ EPOCH = datetime.datetime(2030, 1, 1, tzinfo=datetime.timezone.utc)
 # 1. direct calls of process_peering_event
 IDS = ["me", "op-a", "op-b", "ghost", "dev@host/20300101000000/x1z", "ünï-ç"]
 BAD_PRIO = ["10", "high", None, [1], {"a": 1}]
+HUGE_LIFE = [10 ** 12, -10 ** 12, 10 ** 15, 86399999999999, 86400000000000, -86399999913600, -86399999913601,
+             {"to_max": 0}, {"to_max": 0}, {"to_max": -1}, {"to_max": 1}, {"to_min": 0}, {"to_min": -1}, {"to_min": 1}]
 BAD_LIFE = ["30", "86400", " 7 ", "+4", "1_0", "-2", "abc", "", "1.5", "0x10", "1__0", "_1", None, [1], {"a": 1}]
 
 
@@ -155,9 +178,12 @@ def gen_record(rng: Any, my_prio: int) -> Any:
         life = r["lifetime"] = rng.choice([True, False])
     else:
         life = r["lifetime"] = rng.choice(BAD_LIFE)
+    if rng.random() < 0.03:
+        # beyond what timedelta / datetime can hold (OverflowError in Peer()), and the last values they can
+        life = r["lifetime"] = rng.choice(HUGE_LIFE)
     c = rng.random()
     fmt = rng.choice(["full", "full", "full", "naive", "z", "space"])
-    life_i = life if isinstance(life, int) else 60
+    life_i = life if isinstance(life, int) and abs(life) < 10 ** 7 else 60
     if c < 0.10:
         pass
     elif c < 0.14:
@@ -185,10 +211,16 @@ def gen_direct(rng: Any) -> dict:
     records = [[i, gen_record(rng, my_prio)] for i in ids]
     c = rng.random()
     mode = "dict" if c < 0.96 else rng.choice(["missing", "none", "list", "str", "int"])
-    return {"me": "me", "prio": my_prio, "toggle": rng.choice([None, True, True, False, False]),
+    case = {"me": "me", "prio": my_prio, "toggle": rng.choice([None, True, True, False, False]),
             "autoclean": rng.random() < 0.9, "name_ok": rng.random() < 0.97, "status_mode": mode, "records": records,
             "latency": rng.choice([0, 1, 1, 2, 64]), "gap": rng.choice([1, 3, 64]),
             "interrupt": None if rng.random() < 0.7 else rng.choice([1, 5, 100, 4000])}
+    if any(isinstance(r, dict) and (isinstance(r.get("lifetime"), dict) or (type(r.get("lifetime")) is int and abs(r["lifetime"]) > 10 ** 7))
+           for _i, r in records):
+        # a live blocker whose deadline is thousands of years away: the sleep towards it is always interrupted (a new event),
+        # the virtual clock must not travel there
+        case["interrupt"] = rng.choice([1, 5, 100])
+    return case
 
 
 @functools.lru_cache(maxsize=200_000)
@@ -225,6 +257,8 @@ def expected_from_statement(status: Any, me: str, my_prio: int, now_s: float) ->
             if p is None:
                 return None
             seen = p
+        if not (-86399999913600 <= life <= 86399999999999) or not (sim_c13.DT_MIN_S <= seen + life < sim_c13.DT_END_S):
+            return None               # not a representable deadline (timedelta / datetime overflow): Peer() raises, as for a garbled record
         live = seen + life > now_s
         if not live:
             if ident != me:           # "expired records of OTHERS are cleaned up"
@@ -420,11 +454,20 @@ def gen_history(rng: Any, seed: int) -> dict:
         if edits:
             e = rng.choice(edits)
             tl.append([e[0] + rng.choice([0.25, 0.5, 1.0]), "stop", max(names, key=lambda x: ops[x]["priority"])])
-    return {"seed": seed, "peering": rng.choice(["default", "verif-peers"]), "ops": ops, "pre_status": pre,
-            "response_latency": resp_lat, "handler_delay": hdelay,
-            "sticky_identities": rng.random() < 0.25,
-            "objects": [{"name": "a", "body": {"spec": {"x": 0}}}], "timeline": sorted(tl, key=lambda e: e[0]),
-            "delivery": delivery, "end": end}
+    sc = {"seed": seed, "peering": rng.choice(["default", "verif-peers"]), "ops": ops, "pre_status": pre,
+          "response_latency": resp_lat, "handler_delay": hdelay,
+          "sticky_identities": rng.random() < 0.25,
+          "objects": [{"name": "a", "body": {"spec": {"x": 0}}}], "timeline": sorted(tl, key=lambda e: e[0]),
+          "delivery": delivery, "end": end}
+    # 15%: a waiting operator is asked to stop at the very tick its sleep towards a blocker's deadline ends (its self-touch and
+    # the withdrawal are then in flight together: audit N3, the residue of F2). Own random stream: the other histories stay as they were.
+    r2 = random.Random(seed * 7919 + 13)
+    if r2.random() < 0.15:
+        top = max(names, key=lambda x: ops[x]["priority"])
+        waiting = [x for x in names if x != top]
+        kills = [e[0] for e in tl if e[1] == "kill"]
+        sc["stop_on_wake"] = {r2.choice(waiting): (min(kills) if kills and r2.random() < 0.7 else 0.0)}
+    return sc
 
 
 # ---- oracle over one history --------------------------------------------------------------------
@@ -728,7 +771,22 @@ def oracle_history(ctx: Ctx, sc: dict, tr: dict, full: bool = False) -> dict:
                     stats["withdrawals_lost_to_api_errors"] = stats.get("withdrawals_lost_to_api_errors", 0) + 1
                     continue            # the API refused every withdrawal attempt: the record can only expire (environment, not kopf)
                 vals = [q["payload"]["status"][i["identity"]] for q in mine]
-                if None in vals and any(v is not None for v in vals[vals.index(None) + 1:]):
+                # in LANDING order: the withdrawal, then a record of its own written by the operator itself
+                own_w = [w for w in tr.get("writes", []) if w["who"] == i["who"] and isinstance(w["patch"], dict)
+                         and i["identity"] in w["patch"] and w["t"] >= i["t_stop_req"] - 2.0]
+                k_none = next((k for k, w in enumerate(own_w) if w["patch"][i["identity"]] is None), None)
+                back = [w for w in own_w[k_none + 1:] if w["patch"][i["identity"]] is not None] if k_none is not None else []
+                t_wd = sim_c13.ticks(own_w[k_none]["t_issue"]) if k_none is not None else None
+                in_flight = [x for x in tr.get("touches", []) if x["inc"] == i["inc"] and x["in_call"] and t_wd is not None
+                             and sim_c13.ticks(i["t_stop_req"]) - 5 * TPS <= x["t"] <= t_wd]
+                if back and in_flight:
+                    ctx.oracle_fail(f"operator {i['name']} was asked to stop at {i['t_stop_req']} while the self-touch of a process_peering_event "
+                                    f"call (its sleep to a blocker's deadline had just ended, touch issued at {in_flight[-1]['t'] / TPS}) was in "
+                                    f"flight; the withdrawal (issued {own_w[k_none]['t_issue']}, applied {own_w[k_none]['t']}) overtook it, the "
+                                    f"self-touch was applied at {back[0]['t']}: the record outlives the operator (gone at {i['t_stopped']})",
+                                    {"scenario": sc, "inc": i["inc"]},
+                                    {"site": "peering.process_peering_event", "shape": "record re-added by a self-touch in flight when the withdrawal was issued"})
+                elif None in vals and any(v is not None for v in vals[vals.index(None) + 1:]):
                     ctx.oracle_fail(f"operator {i['name']} withdrew its record on exit, then a sleeping process_peering_event woke up and "
                                     f"touched it back; the record outlives the operator (gone at {i['t_stopped']})",
                                     {"scenario": sc, "inc": i["inc"]},
@@ -853,15 +911,37 @@ def oracle_history(ctx: Ctx, sc: dict, tr: dict, full: bool = False) -> dict:
                 what = (f"operator {i['name']} ran handler {c['id']} twice for the same change of {c['name']} (x={c['x']}): "
                         f"at {c0['t']} (until {c0.get('t_end')}) and at {c['t']}")
                 paused_between = any(v and c0["t"] <= t <= c["t"] for (t, v) in H.pz.get(i["inc"], []))
-                if c.get("rv") == c0.get("rv") and c0.get("t_end") is not None and c0["t_end"] <= c["t"] and paused_between:
+                # the second run acts on a version of the object that was already superseded when it started, while the operator is paused
+                stale_while_paused = bool(H.paused_at(i["inc"], c["t"])) and str(c.get("rv")).isdigit() and any(
+                    h["t"] <= c["t"] and str(h["rv"]).isdigit() and int(h["rv"]) > int(c["rv"]) for h in kh.get(c["name"], []))
+                if c0.get("t_end") is not None and c0["t_end"] <= c["t"] and ((c.get("rv") == c0.get("rv") and paused_between) or stale_while_paused):
                     # the SAME version of the object, after the first run had ended, with a pause in between: a stale event queued
                     # behind the first run, acted upon when the wait for the own patch's version timed out (it cannot arrive: the
                     # pause has closed the stream)
-                    ctx.oracle_fail(what + f": the same resourceVersion {c.get('rv')}; the operator was paused in between, so its own patch "
+                    ctx.oracle_fail(what + f": on the stale resourceVersion {c.get('rv')} (first run: {c0.get('rv')}); the operator was paused, so its own patch "
                                     f"(which records the success) was never seen, and after settings.persistence.consistency_timeout the "
                                     f"stale queued event was handled as if it were consistent",
                                     {"scenario": sc, "inc": i["inc"], "t": c["t"]},
                                     {"site": "processing.consistency", "shape": "a handler that has succeeded is executed again after a pause (stale queued event, consistency timeout)"})
+                elif any(c3["inc"] != i["inc"] and c3["uid"] == c["uid"] and c3["kind"] in ("create", "update")
+                         and c3.get("t_end") is not None and c0["t"] <= c3["t_end"] <= c["t"] and H.paused_at(c3["inc"], c3["t"])
+                         and str(c3.get("rv")).isdigit() and str(c0.get("rv")).isdigit() and int(c3["rv"]) < int(c0["rv"])
+                         for c3 in tr["calls"]):
+                    # the same root seen from the active operator: a PAUSED peer acted on a stale queued event after the consistency
+                    # timeout (its stream is closed, the awaited version cannot come) and stored ITS handling state - computed from
+                    # the old body - over the active operator's, which then sees its own finished change as new
+                    ctx.oracle_fail(what + ": a paused peer ran the handler on an older version of the object in between (stale queued event, "
+                                    "consistency timeout faked while paused) and overwrote the stored handling state",
+                                    {"scenario": sc, "inc": i["inc"], "t": c["t"]},
+                                    {"site": "processing.consistency", "shape": "a handler that has succeeded is executed again after a pause (stale queued event, consistency timeout)"})
+                elif H.late and any(c3["inc"] != i["inc"] and c3["uid"] == c["uid"] and c3["kind"] in ("create", "update")
+                                    and c3.get("t_end") is not None and c0["t"] <= c3["t_end"] <= c["t"] for c3 in tr["calls"]):
+                    # two operators active at once (late regime, F4): the other one finished a handler of the same object in
+                    # between and stored ITS view of the handling state (last-handled configuration, progress) over this one's
+                    ctx.oracle_fail(what + ": another operator, active at the same time (peering events arrive later than a keep-alive "
+                                    "margin), handled the same object in between and overwrote the stored handling state",
+                                    {"scenario": sc, "inc": i["inc"], "t": c["t"]},
+                                    {"site": "peering.clean", "shape": "fresh record of a running operator deleted by a peer", "regime": "late-delivery"})
                 else:
                     fail(what, "handler executed twice for one change by one operator", inc=i["inc"], t=c["t"])
                 break
@@ -907,10 +987,12 @@ def oracle_history(ctx: Ctx, sc: dict, tr: dict, full: bool = False) -> dict:
                 reported = True
                 what = (f"change {key[1]}(x={key[2]}) of {c1['name']} handled by {i1['name']} at {c1['t']} (until {c1.get('t_end')}) AND by "
                         f"{i2['name']} at {c2['t']}, both active at those moments")
-                exiting = i1["t_stop_req"] is not None and i1["t_stop_req"] <= c2["t"] and (i1["t_stopped"] is None or c2["t"] <= i1["t_stopped"])
-                if exiting:
-                    ctx.oracle_fail(what + f": {i1['name']} was asked to stop at {i1['t_stop_req']}, withdrew its record at once and went on "
-                                    f"handling until {i1['t_stopped']}; the successor resumed meanwhile",
+                # one of the two is in its exit window (asked to stop, record withdrawn, queues still depleting) - whichever started first
+                ex = [ix for ix in (i1, i2) if ix["t_stop_req"] is not None and ix["t_stop_req"] <= c2["t"]
+                      and (ix["t_stopped"] is None or c2["t"] <= ix["t_stopped"])]
+                if ex:
+                    ctx.oracle_fail(what + f": {ex[0]['name']} was asked to stop at {ex[0]['t_stop_req']}, withdrew its record at once and went on "
+                                    f"handling until {ex[0]['t_stopped']}; the successor resumed meanwhile",
                                     {"scenario": sc, "t": c2["t"]},
                                     {"site": "orchestration.orchestrator", "shape": "the successor handles a change the exiting operator is still handling"})
                 elif H.late:
@@ -933,11 +1015,13 @@ def oracle_history(ctx: Ctx, sc: dict, tr: dict, full: bool = False) -> dict:
         lo = bisect.bisect_left(moments, te - Wg)
         if lo < len(moments) and moments[lo] <= te + Wg:
             continue            # something about who runs / who is paused moved near the edit
-        if any(e2[1] == "edit" and e2[2] == name and te < e2[0] <= te + Wg for e2 in sc["timeline"]):
-            continue
         busy = 0.0          # a busy operator (handlers take time, one object is handled serially) gets to the edit later
         if sc.get("handler_delay"):
             busy = float(sc["handler_delay"]) * (1 + sum(1 for e2 in sc["timeline"] if e2[1] in ("edit", "create") and te - 60 <= e2[0] <= te))
+        # (kopf handles the latest state of an object: an edit that is followed by another one before the operator gets to it - it may
+        #  still be busy with an earlier change - is legitimately covered by the handling of the later one)
+        if any(e2[1] == "edit" and e2[2] == name and te < e2[0] <= te + Wg + busy for e2 in sc["timeline"]):
+            continue
         present = [i for i in incs if i["inc"] in H.made and i["t_start"] < te - Wg and H.end_of(i) > te + Wg + busy]
         actives = [i for i in present if H.paused_at(i["inc"], te) is False]
         now_active = [i for i in incs if i["inc"] in H.made and H.made[i["inc"]] <= te < H.end_of(i) and H.paused_at(i["inc"], te) is False]
@@ -946,9 +1030,9 @@ def oracle_history(ctx: Ctx, sc: dict, tr: dict, full: bool = False) -> dict:
         stats["quiet_edits"] = stats.get("quiet_edits", 0) + 1
         if len(actives) == 1 and [i["inc"] for i in now_active] == [actives[0]["inc"]]:
             mine = [c for c in near if c["inc"] == actives[0]["inc"]]
-            if len(mine) != 1:
-                fail(f"edit x={xv} at {te}: the only active operator {actives[0]['name']} ran the update handler {len(mine)} times",
-                     "quiet edit not handled exactly once by the active operator", t=te)
+            if len(mine) == 0:      # (more than once: reported - and classified - by the clause "nothing handled twice" above)
+                fail(f"edit x={xv} at {te}: the only active operator {actives[0]['name']} did not run the update handler",
+                     "quiet edit not handled by the active operator", t=te)
             # (that nobody else handles it as well is clause (H), for every edit)
         elif not now_active and [c for c in near if c["t"] <= te + Wg]:
             near = [c for c in near if c["t"] <= te + Wg]
@@ -1108,6 +1192,10 @@ def judge(sc: dict, tr: dict, full: bool = False) -> dict:
     for k, v in stats.items():
         col.count("history." + k, "total", v)
     col.count("history.ops", len(sc["ops"]))
+    if sc.get("stop_on_wake"):
+        col.count("history.stop_on_wake", "fired (stop at the tick a sleep to a deadline ended)"
+                  if any(m["what"] == "stop_on_wake" for m in tr.get("marks", [])) else "armed, no undisturbed wake")
+    col.count("history.handler_delay", sc.get("handler_delay") or 0)
     col.count("history.events", ",".join(sorted({e[1] for e in sc["timeline"]})))
     for n, p in enumerate(tr["pcalls"]):
         if p["now2"] is None and p["error"] in (None, "cancelled") and p["name_ok"]:
@@ -1130,7 +1218,8 @@ def judge(sc: dict, tr: dict, full: bool = False) -> dict:
                  sample={"scenario_seed": sc.get("seed"), "call": p} if n == 7 and sc.get("seed", 0) % 41 == 0 else None)
     # ---- LTS-level ties: the write semantics (`Status.patch`) and the stale-view step (`deliverStale`) -----------------
     who_of = {i["inc"]: i["who"] for i in tr["incs"]}
-    bound = 1 + sim_c13.ticks(max([0.0] + [float(x) for x in (sc.get("patch_latency") or {}).values()]))
+    bound = 1 + sim_c13.ticks(max([0.0] + [float(x) for x in (sc.get("patch_latency") or {}).values()])) \
+        + sim_c13.ticks(max([0.0] + [float(x) for x in (sc.get("selftouch_latency") or {}).values()]))
     wf_writes = []
     for w in tr.get("writes", []):
         b, a_, pt = wf_status(w["before"]), wf_status(w["after"]), w["patch"]
@@ -1170,7 +1259,8 @@ def judge(sc: dict, tr: dict, full: bool = False) -> dict:
             col.count("lts.stale", "skipped")
             continue
         lts.append([["C13.stale", {"u": TPS, "current": ws[0][1], "view": view, "me": p["me"], "prio": p["prio"],
-                                   "paused": p["toggle_before"], "now": p["t0"]}], {"status": ws[0][2], "paused": p["toggle_after"]}])
+                                   "paused": p["toggle_before"], "now": p["t0"], "regime": "late" if stats.get("late_regime") else "timely"}],
+                    {"status": ws[0][2], "paused": p["toggle_after"]}])
         col.count("lts.stale", "view==current" if view == ws[0][1] else "view older than current")
     for kk in tr["ka"]:
         if kk["lifetime"] is None:
@@ -1198,7 +1288,11 @@ def judge(sc: dict, tr: dict, full: bool = False) -> dict:
                 had = any(i["identity"] in (h["status"] or {}) for h in H.ph if i["t_start"] <= h["t"] <= t)
                 if had and i["t_start"] <= t < run_end(i) and i["identity"] not in st:
                     bare.add(i["name"])
-        facts = {"both_active": sorted(both), "running_without_record": sorted(bare)}
+        gone_live = sorted(i["name"] for i in tr["incs"] if i["t_stopped"] is not None
+                           and i["identity"] in H.status_at(i["t_stopped"])[0]
+                           and H.live(H.status_at(i["t_stopped"])[0][i["identity"]], i["t_stopped"])
+                           and not any(j is not i and j["identity"] == i["identity"] and H.running(j, i["t_stopped"]) for j in tr["incs"]))
+        facts = {"both_active": sorted(both), "running_without_record": sorted(bare), "gone_with_live_record": gone_live}
     return {"judged": True, "failures": col.failures, "counts": col.counts, "cases": col.cases, "samples": col.samples,
             "calls": calls, "ka": ka, "lts": lts, "sim_error": tr.get("sim_error"), "facts": facts}
 
@@ -1279,7 +1373,7 @@ def run(ctx: Ctx) -> None:
         m = out[1] if out and out[0] == "ok" else out
         if req[0] == "C13.stale" and isinstance(m, dict):
             # how much of the real staleness lies inside the guard of the `_partial` theorems (`benign_stale_eq_deliver`)
-            ctx.count("lts.stale_view", ("current" if req[1]["view"] == req[1]["current"] else
+            ctx.count("lts.stale_view", f"{req[1].get('regime', '?')} regime: " + ("current" if req[1]["view"] == req[1]["current"] else
                                          "older, benign (inside the guard)" if m.get("benign") else
                                          "older, NOT benign (outside the guard): " + ("cleaning differs" if m.get("sameVerdict") else "verdict differs")))
             # (a call cancelled - operator torn down - after its clean() has landed but before the toggle: the write is compared)
@@ -1317,8 +1411,10 @@ def run_witness(ctx: Ctx, name: str, d: dict) -> None:
         if snaps:
             last = snaps[-1]
             ops_ = last["ops"]
+            live_ids = [e[0] for e in last["status"] if e[1]["lastseen"] + e[1]["lifetime"] * TPS > last["now"]]
             m_all = {"both_active": sum(1 for o in ops_.values() if o["alive"] and not o["paused"]) >= 2,
-                     "running_without_record": any(o["alive"] and i not in [e[0] for e in last["status"]] for i, o in ops_.items())}
+                     "running_without_record": any(o["alive"] and i not in [e[0] for e in last["status"]] for i, o in ops_.items()),
+                     "gone_with_live_record": any(not o["alive"] and i in live_ids for i, o in ops_.items())}
             model = {k: m_all[k] for k in claims}
         facts = j.get("facts") or {}
         impl = {k: bool(facts.get(k)) for k in claims}
